@@ -212,6 +212,11 @@ class _ReadSourceGenerator:
 
             # Everything else - basic and composite types (and arrays of them)
             else:
+                if not current_block and field.offset is not None and field.offset != current_offset:
+                    # The block starts behind a gap (e.g. alignment padding after a nested structure or bit field)
+                    yield f"stream.seek(o + {field.offset})"
+                    current_offset = field.offset
+
                 current_block.append(field)
 
             if current_offset is not None and size is not None and (not field.bits or bits_rollover):
